@@ -84,6 +84,7 @@ func conformCorpus() []conformCase {
 
 func runConformance(sh *Shared, limit int) (int, []string, error) {
 	native := NewNativeRunner(*flagRepo, *flagHarness)
+	native.files = sh.harnessFiles
 	defer native.Close()
 	return runConformanceWith(sh, native, limit)
 }
